@@ -901,7 +901,7 @@ func typeCasesOn(fn *ssa.Function, x ssa.Value) []typeCase {
 	var out []typeCase
 	eachInstr(fn, func(in ssa.Instruction) {
 		ta, ok := in.(*ssa.TypeAssert)
-		if !ok || !ta.CommaOk || ta.X != x {
+		if !ok || !ta.CommaOk || !sameSwitchVal(ta.X, x) {
 			return
 		}
 		tc := typeCase{Asserted: ta.AssertedType, TA: ta}
